@@ -74,6 +74,17 @@ def instantiate(cx):
         head = 'import xml.etree.ElementTree\nimport email.mime.text\n'
         left = 'zz = ' + ('xml.' + {'': '', 'a': 'e', 'al': 'et', 'alp': 'etr'}[run] if cx['run'] % 2 == 0 else 'email.' + {'a': 'm', 'alp': 'mim'}[run])
         line = left + ('ee' if fol == 'ident' else '')
+    elif ctx == 'fromline':
+        if pre != 'space' or fol not in ('eol', 'ident') or cx['run'] == 0:
+            return None
+        if cx['run'] % 2:
+            head += 'def f():\n    raise ValueError() \\\n'
+            left = '        from ' + run
+            line = left + ('ha' if fol == 'ident' else '')
+        else:
+            head += 'def f(gen):\n    zz = (yield\n'
+            left = ' from ' + run
+            line = left + ('ha' if fol == 'ident' else '') + ')'
     elif ctx == 'import':
         if pre not in ('space', 'dot', 'comma') or fol not in ('eol', 'ident'):
             return None
